@@ -26,6 +26,17 @@ CHECKS["C13"] = dict(
     note="rational grid |p|<=60, q in {1,2,3,4,5,8} plus singular points; +-10^k by enclosures; formulas as transcribed from the cited table",
     technique="TLA+ closed forms + TLC invariants on a rational grid + trace validation of lifted evaluations")
 
+CHECKS["C05"] = dict(
+    text="For seeded configurations of the bounded space (9 classes, non-uniform spacing, every coefficient/velocity sign pattern, explicit upwind direction fields) the real builders' matrices and the matrix of the explicit chain divergenceTerm(coef*mean/gradient(e_c)) over the full unit basis (ghost cells included) are lifted to exact rationals, and TLC (FVTraceOps) evaluates the C05 predicates of FVProperties on them with zero tolerance; the reference semantics FVOperators is compared as a conformance tripwire and is itself checked by TLC for the same identities (FVDesignOps).",
+    ref="DESIGN.md 5/C05",
+    note="bounded sizes (N<=3 per axis, 3D N<=2), seeded sampling of coefficient fields; SphericalGrid3D via the rational surrogate metric; TVD identities are checked by the TVD part",
+    technique="TLA+ reference operators + TLC trace validation of lifted builder outputs (code-vs-code identities evaluated in TLC)")
+CHECKS["C06"] = dict(
+    text="Row sums of the real diffusion / central / upwind matrices and the code's own divergence of u, plus source-term matrices and vectors, are lifted to exact rationals for seeded configurations of the bounded space; TLC (FVTraceOps) evaluates the C06 predicates (M*1 = 0, M*1 = div u, sources diagonal and interior-only) with zero tolerance.",
+    ref="DESIGN.md 5/C06",
+    note="bounded sizes, seeded sampling; the steady-state clause is decided through the inverse-formulation solves of the solver layer",
+    technique="TLA+ predicates evaluated by TLC on lifted builder outputs; reference semantics as tripwire")
+
 NOT_APPLICABLE = {
  "C02": "asymptotic convergence order under refinement: no reals/limits in TLA+, exact lifting does not survive solves on refined grids (DESIGN 8)",
 }
